@@ -1,5 +1,6 @@
 import Pw.Model.Render
 import Pw.Spec.Errors
+import Pw.Spec.Cursor
 /-
   Line-protocol driver: reads `case || implementation result` lines, runs the model on the
   case, compares with the implementation's result and evaluates the property oracles on the
@@ -63,11 +64,28 @@ structure ModelOut where
   unsup : Bool
   stuffed : Bool
 
+def parseAccOps (s : String) : List Spec.Acc :=
+  if s.isEmpty then [] else (s.splitOn ",").filterMap fun o =>
+    if o = "s" then some .str else if o = "u2" then some .u16 else if o = "u4" then some .u32
+    else if o.startsWith "b" then ((o.drop 1).toString.toNat?).map .bytes else none
+
+def renderAcc (rs : List Spec.AccRes) (rem : Bytes) : String :=
+  ";".intercalate (rs.map (fun r => match r with | some v => "+" ++ hexOf v | none => "-") ++ ["rem=" ++ hexOf rem])
+
 /-- model side of the direct-call campaigns -/
 def runDirect (c : CaseIn) (kind : String) : ModelOut :=
   if kind = "params" then
     { out := "", ev := "n=" ++ toString (paramCount c.inp) ++ ";z=1", ending := "c", unsup := false, stuffed := false }
+  else if kind = "accessor" then
+    let (rs, rem) := Spec.modelRun c.inp (parseAccOps (get c.kv "ops"))
+    { out := "", ev := renderAcc rs rem, ending := "c", unsup := false, stuffed := false }
   else { out := "", ev := "?", ending := "?", unsup := false, stuffed := false }
+
+/-- C03 accessor oracle: the real accessors' results equal the independent cursor's -/
+def oracleAccessor (c : CaseIn) (rkv : KV) : Option String :=
+  let (rs, pos) := Spec.cursorRun c.inp 0 (parseAccOps (get c.kv "ops"))
+  let want := renderAcc rs (c.inp.drop pos)
+  if get rkv "ev" = want then none else some ("C03:accessor:" ++ get rkv "ev" ++ "/" ++ want)
 
 def runModel (c : CaseIn) : ModelOut × Result :=
   let r := serve c.cfg c.h c.inp c.tin
@@ -193,6 +211,7 @@ def oracle (c : CaseIn) (chunks : List Bytes) (rkv : KV) : Option String :=
   if c.camp = "errors" then oracleErrors c chunks
   else if c.camp = "params" then oracleParams c rkv
   else if c.camp = "paramsd" then oracleParamsDescribe c chunks
+  else if c.camp = "accessor" then oracleAccessor c rkv
   else oracleExpect c chunks rkv
 
 def processLine (line : String) : String :=
